@@ -422,7 +422,9 @@ func checkC14(c c14Case, ctx *vCtx) *vFailure {
 	return nil
 }
 
-var c14Layouts = []string{"", "", "2006-01-02", "02.01.2006", "02/01/2006", "2 Jan 2006", "20060102", "2006-01-02 15:04", "2006-01-02 15:04 -0700", "2006/1/2", "January 2, 2006", "Mon 2 Jan 2006"}
+var c14Layouts = []string{"", "", "2006-01-02", "02.01.2006", "02/01/2006", "2 Jan 2006", "20060102", "2006-01-02 15:04", "2006-01-02 15:04 -0700", "2006/1/2", "January 2, 2006", "Mon 2 Jan 2006", "2006-01", "Jan 2006", "2006"}
+
+func c14Partial(layout string) bool { return layout == "2006-01" || layout == "Jan 2006" || layout == "2006" }
 
 func genC14(t *rapid.T) c14Case {
 	layout := c14Layouts[rapid.IntRange(0, len(c14Layouts)-1).Draw(t, "layout")]
@@ -460,14 +462,14 @@ func genC14(t *rapid.T) c14Case {
 			}
 		}
 	}
-	if !strings.HasPrefix(layout, "2006-01-02 15:04") && layout != "2 Jan 2006" && layout != "Mon 2 Jan 2006" && len(days) > 0 && rapid.IntRange(0, 11).Draw(t, "zeroday") == 0 {
+	if !strings.HasPrefix(layout, "2006-01-02 15:04") && layout != "2 Jan 2006" && layout != "Mon 2 Jan 2006" && !c14Partial(layout) && len(days) > 0 && rapid.IntRange(0, 11).Draw(t, "zeroday") == 0 {
 		i := rapid.IntRange(0, len(days)-1).Draw(t, "zerodayat")
 		days[i] = vZeroDay
 		log.Recs[i].Head = vFmtDay(vZeroDay, layout)
 	}
 	c := c14Case{Log: log, Days: days, Layout: layout, ViaEnv: rapid.Bool().Draw(t, "viaenv"), ViaCfg: rapid.IntRange(0, 2).Draw(t, "viacfg") == 0, Begin: c07Absent, End: c07Absent}
 	c.TZ = c06Zones[rapid.IntRange(0, len(c06Zones)-1).Draw(t, "tz")]
-	if layout != "2006-01-02 15:04 -0700" && rapid.IntRange(0, 3).Draw(t, "period") == 0 {
+	if layout != "2006-01-02 15:04 -0700" && !c14Partial(layout) && rapid.IntRange(0, 3).Draw(t, "period") == 0 {
 		c.Begin = shift + rapid.IntRange(0, 7).Draw(t, "b")
 		if rapid.Bool().Draw(t, "hase") {
 			c.End = shift + rapid.IntRange(0, 7).Draw(t, "e")
